@@ -406,7 +406,11 @@ fn account(
                 rendered = c3.rendered;
             }
         }
-        emit(json!({"t":"viol","phase":phase,"phase_name":phase_name,"index":index,"tape":final_tape,"sig":f.sig,"detail":final_detail,
+        let text = match input {
+            Input::Text(t) => Value::String(t.clone()),
+            _ => Value::Null,
+        };
+        emit(json!({"t":"viol","phase":phase,"phase_name":phase_name,"index":index,"tape":final_tape,"text":text,"sig":f.sig,"detail":final_detail,
             "rendered":rendered,"shrunk":shrunk}));
     }
 }
@@ -428,6 +432,9 @@ pub fn load_replay(check: &dyn Check, path: &str) -> Option<(Tier, usize, Input)
     let text = std::fs::read_to_string(path).ok()?;
     let v: Value = serde_json::from_str(&text).ok()?;
     let tier = if v.get("tier").and_then(|t| t.as_str()) == Some("thorough") { Tier::Thorough } else { Tier::Quick };
+    if let Some(text) = v.get("text").and_then(|t| t.as_str()) {
+        return Some((tier, 0, Input::Text(text.to_string())));
+    }
     let pname = v.get("phase_name").and_then(|t| t.as_str())?;
     let phases = check.phases(tier);
     let pidx = phases.iter().position(|p| p.name == pname)?;
